@@ -1006,6 +1006,24 @@ decimal_fixed_i128!(c03_decimal_fixed0_i128, 0, 1);
 //@   post: Ok(v) iff one byte is available, v its sign-extended value (0x80..=0xFF negative), exactly one byte consumed; else Err
 decimal_fixed_i128!(c03_decimal_fixed1_i128, 1, 2);
 
+//@ harness: c03_decimal_fixed2_i128
+//@   props: C03, C04, C01
+//@   tier: thorough
+//@   kind: complete
+//@   fn: de::deserializer::types::decimal::read_decimal (fixed(2), scale 0, i128 target)
+//@   domain: every input of length 0..=3
+//@   post: Ok(v) iff 2 bytes are available, v their sign-extended big-endian value, exactly 2 bytes consumed; else Err
+decimal_fixed_i128!(c03_decimal_fixed2_i128, 2, 3);
+
+//@ harness: c03_decimal_fixed8_i128
+//@   props: C03, C04, C01
+//@   tier: thorough
+//@   kind: complete
+//@   fn: de::deserializer::types::decimal::read_decimal (fixed(8), scale 0, i128 target)
+//@   domain: every input of length 0..=9
+//@   post: Ok(v) iff 8 bytes are available, v their sign-extended big-endian value (all 2^64), exactly 8 bytes consumed; else Err
+decimal_fixed_i128!(c03_decimal_fixed8_i128, 8, 9);
+
 //@ harness: c03_decimal_fixed16_i128
 //@   props: C03, C04, C01
 //@   tier: quick
